@@ -19,15 +19,16 @@ equal temperature and pressure never lowers entropy.
 What the theorems are about:
   * `ThermoVerif.FreeEnergy.<Functor>` — the 21 functor bodies of thermosteam/free_energy.py, TRANSLATED from the
     source at the start of every check run (Generated/FreeEnergy.lean);
-  * `initEnergies`, `Energies.H/S`, `sfusOfCtor`, `idealMix`, `idealEntropy`, `mixtureS` — the hand model of
+  * `initEnergies`, `Energies.H/S`, `initSfus`, `idealMix`, `idealEntropy`, `mixtureS` — the hand model of
     `Chemical._init_energies`, the phase handles, `_init_data` and the ideal mixture models (Model/FreeEnergy.lean),
     tied to the code by the correspondence run.
 Everything is instantiated at ℝ with ARBITRARY heat-capacity objects `Cs Cl Cg : HeatCap ℝ` subject only to the
 laws `Lawful` (satisfied by the interval integrals of any continuous function, `lawful_ofCn`), arbitrary
 `T_ref, P_ref, H_ref, S0, Tm, Tb, Hfus, Sfus, Hvap(Tb)`, `T`, `P`.
 
-Two clauses are FALSE of the code as it is (DESIGN.md §8 #20, #21; both pinned by doctests): they are kept as
-`def …_statement : Prop` with `…_counterexample` and `…_partial` theorems.
+The mixing-entropy clauses are FALSE of the code as it is (DESIGN.md §8 #20, pinned by the IdealEntropyModel doctest):
+they are kept as `def …_statement : Prop` with `…_counterexample` and `…_partial` theorems.  (§8 #21, the entropy of
+fusion, was fixed in /repo by 7c3427a; the model mirrors the fixed code and `jump_Tm_S` is a theorem.)
 -/
 set_option linter.unusedTactic false
 set_option linter.unreachableTactic false
@@ -39,7 +40,7 @@ open ThermoVerif.FreeEnergy
 noncomputable section
 
 /-- the environment of the functors over ℝ: `math.log`, the gas constant, Python truthiness of a number -/
-def realEnv (R : ℝ) : Env ℝ := ⟨Real.log, R, fun x => decide (x = 0)⟩
+def realEnv (R : ℝ) : Env ℝ := ⟨Real.log, R, fun x => decide (x = 0), fun a b => decide (a ≤ b)⟩
 
 /-! ## The laws of a heat-capacity object -/
 
@@ -331,8 +332,8 @@ theorem jump_Tm_H (hs : Lawful Cs cs) (hl : Lawful Cl cl) (d : Data) (r : Phase)
   have e2 := hl.I_self d.Tb
   cases r <;> simp only [Hval, hs.I_self, hl.I_self] <;> linarith
 
-/-- `jump_Tm` (entropy), the part that holds of the code: WHEN the chemical has an entropy of fusion,
-`S_l(Tm) − S_s(Tm) = Sfus`. -/
+/-- `jump_Tm` (entropy) in terms of the stored entropy of fusion, whatever it is (it can be set independently through
+the `Sfus` setter): `S_l(Tm) − S_s(Tm) = Sfus`.  `jump_Tm_S` below is the clause of the property. -/
 theorem jump_Tm_S_partial (hs : Lawful Cs cs) (hl : Lawful Cl cl) (d : Data) (ok : d.Ok) (r : Phase) (P : ℝ) :
     Sval R Cs Cl Cg d r .l d.Tm P - Sval R Cs Cl Cg d r .s d.Tm P = d.Sfus := by
   have e := hl.J_add d.Tref d.Tm d.Tref ok.Tref_pos ok.Tm_pos ok.Tref_pos
@@ -341,74 +342,72 @@ theorem jump_Tm_S_partial (hs : Lawful Cs cs) (hl : Lawful Cl cl) (d : Data) (ok
   have e2 := hl.J_self d.Tb
   cases r <;> simp only [Sval, hs.J_self, hl.J_self] <;> linarith
 
-/-! ## The entropy of fusion (DESIGN.md §8 #21)
+/-! ## The entropy of fusion (DESIGN.md §8 #21, fixed in /repo by 7c3427a)
 
-`_init_data` computes `Sfus` from the CONSTRUCTOR arguments `Hfus`, `Tm` — not from the values finally stored
-(which come from the database when the arguments are absent).  So a database chemical has `Sfus = None`, and every
-entropy functor on the other side of the melting point from the reference phase raises `TypeError`. -/
+`_init_data` used to compute `Sfus` from the CONSTRUCTOR arguments, so every database chemical had `Sfus = None` and
+the entropy functors on the other side of the melting point raised `TypeError`.  Since the fix it is computed from
+the stored `Hfus` and `Tm`; the model (`initSfus`) mirrors the fixed code and the clause is a theorem. -/
 
-/-- the same chemical, with the entropy of fusion `_init_data` computes from the constructor arguments -/
-def chemInCtor (r : Phase) (d : Data) (HfusArg TmArg : Option ℝ) : ChemIn ℝ :=
-  { chemIn r d with Sfus := sfusOfCtor HfusArg TmArg }
+/-- the chemical as `_init_data` + `_init_energies` build it: the entropy of fusion is derived from the stored
+`Hfus` and `Tm` -/
+def chemInData (r : Phase) (d : Data) : ChemIn ℝ :=
+  { chemIn r d with Sfus := initSfus (realEnv R) (some d.Hfus) (some d.Tm) }
 
-/-- the constructor computes `Hfus / Tm` when both are given … -/
-theorem Sfus_of_constructor (h t : ℝ) : sfusOfCtor (some h) (some t) = some (h / t) := rfl
+/-- `_init_data` stores `Hfus / Tm` whenever `Tm` is truthy and `Hfus` is a number … -/
+theorem Sfus_init (h t : ℝ) (ht : t ≠ 0) : initSfus (realEnv R) (some h) (some t) = some (h / t) := by
+  simp [initSfus, truthy, realEnv, ht]
 
-/-- … and `None` as soon as one of them is taken from the database. -/
-theorem Sfus_database_none (a : Option ℝ) : sfusOfCtor (none : Option ℝ) a = none ∧ sfusOfCtor a (none : Option ℝ) = none := by
-  cases a <;> simp [sfusOfCtor]
+/-- … and `None` exactly when `Tm` is missing/zero or `Hfus` is missing. -/
+theorem Sfus_init_none (h t : Option ℝ) :
+    initSfus (realEnv R) h t = none ↔ (t = none ∨ t = some 0 ∨ h = none) := by
+  cases h <;> cases t <;> simp [initSfus, truthy, realEnv]
 
-/-- Full clause of the property: for every chemical (in particular one whose Hfus and Tm come from the database,
-i.e. `HfusArg = TmArg = none`) the entropy jump at the melting point is `Hfus / Tm`. -/
-def jump_Tm_S_statement : Prop :=
-  ∀ (R : ℝ) (Cs Cl Cg : HeatCap ℝ) (cs cl cg : ℝ → ℝ), Lawful Cs cs → Lawful Cl cl → Lawful Cg cg →
-  ∀ (d : Data), d.Ok → ∀ (r : Phase) (HfusArg TmArg : Option ℝ) (P : ℝ),
-    ∃ sl ss, (initEnergies (realEnv R) Cs Cl Cg (chemInCtor r d HfusArg TmArg)).S (realEnv R) .l d.Tm P = .ok sl ∧
-             (initEnergies (realEnv R) Cs Cl Cg (chemInCtor r d HfusArg TmArg)).S (realEnv R) .s d.Tm P = .ok ss ∧
-             sl - ss = d.Hfus / d.Tm
+/-- `jump_Tm` (entropy), full clause: for a chemical as the (fixed) code builds it, in each of the 3 reference phases,
+the entropy functors of the liquid and the solid evaluate at the melting point (no `TypeError`) and
+`S_l(Tm) − S_s(Tm) = Hfus / Tm`. -/
+theorem jump_Tm_S (hs : Lawful Cs cs) (hl : Lawful Cl cl) (d : Data) (ok : d.Ok) (r : Phase) (P : ℝ) :
+    ∃ sl ss, (initEnergies (realEnv R) Cs Cl Cg (chemInData R r d)).S (realEnv R) .l d.Tm P = .ok sl ∧
+             (initEnergies (realEnv R) Cs Cl Cg (chemInData R r d)).S (realEnv R) .s d.Tm P = .ok ss ∧
+             sl - ss = d.Hfus / d.Tm := by
+  let d' : Data := { d with Sfus := d.Hfus / d.Tm }
+  have ok' : d'.Ok := ⟨ok.Tref_pos, ok.Tm_pos, ok.Tb_pos, ok.Hvap_ne⟩
+  have e : chemInData R r d = chemIn r d' := by
+    simp only [chemInData, Sfus_init R d.Hfus d.Tm (ne_of_gt ok.Tm_pos)]
+    rfl
+  refine ⟨Sval R Cs Cl Cg d' r .l d'.Tm P, Sval R Cs Cl Cg d' r .s d'.Tm P, ?_, ?_, ?_⟩
+  · rw [e]; exact S_closed_form R Cs Cl Cg d' ok' r .l d.Tm P
+  · rw [e]; exact S_closed_form R Cs Cl Cg d' ok' r .s d.Tm P
+  · exact jump_Tm_S_partial R Cs Cl Cg cs cl hs hl d' ok' r P
 
-/-- For a database chemical with reference phase liquid or gas, `S('s', T, P)` raises `TypeError` at every `T, P`;
-with reference phase solid, `S('l', …)` and `S('g', …)` raise. -/
-theorem solid_entropy_raises (d : Data) (ok : d.Ok) (T P : ℝ) :
-    (initEnergies (realEnv R) Cs Cl Cg (chemInCtor .l d none none)).S (realEnv R) .s T P = .error .typeError ∧
-    (initEnergies (realEnv R) Cs Cl Cg (chemInCtor .g d none none)).S (realEnv R) .s T P = .error .typeError ∧
-    (initEnergies (realEnv R) Cs Cl Cg (chemInCtor .s d none none)).S (realEnv R) .l T P = .error .typeError ∧
-    (initEnergies (realEnv R) Cs Cl Cg (chemInCtor .s d none none)).S (realEnv R) .g T P = .error .typeError := by
+/-- the error branch ("raises iff"): a chemical WITHOUT an entropy of fusion (e.g. `Chemical.blank(…)` built without
+`Sfus`; before the fix: every database chemical) raises `TypeError` in exactly the entropy functors that cross the
+melting point from the reference phase, at every `T, P`. -/
+theorem solid_entropy_raises_without_Sfus (d : Data) (ok : d.Ok) (T P : ℝ) :
+    (initEnergies (realEnv R) Cs Cl Cg { chemIn .l d with Sfus := none }).S (realEnv R) .s T P = .error .typeError ∧
+    (initEnergies (realEnv R) Cs Cl Cg { chemIn .g d with Sfus := none }).S (realEnv R) .s T P = .error .typeError ∧
+    (initEnergies (realEnv R) Cs Cl Cg { chemIn .s d with Sfus := none }).S (realEnv R) .l T P = .error .typeError ∧
+    (initEnergies (realEnv R) Cs Cl Cg { chemIn .s d with Sfus := none }).S (realEnv R) .g T P = .error .typeError := by
   have h1 := ne_of_gt ok.Tm_pos
   have h2 := ne_of_gt ok.Tb_pos
   have h3 := ok.Hvap_ne
   refine ⟨?_, ?_, ?_, ?_⟩ <;>
-    simp [chemInCtor, sfusOfCtor, initEnergies, chemIn, truthy, realEnv, guardedInt, h1, h2, h3, Energies.S, Inst.eval,
+    simp [initEnergies, chemIn, truthy, realEnv, guardedInt, h1, h2, h3, Energies.S, Inst.eval,
       call, Inst.cnOf, Inst.valOf, Inst.arg, Fn.params, Builder.s, Builder.l, Builder.g, List.zip, lookupPar]
 
-/-- the data of liquid-reference "water" with constant heat capacities: the witness of #21 -/
+/-- the data of liquid-reference "water" with constant heat capacities (used by the non-vacuity examples) -/
 def witnessData : Data :=
   { Tref := 298.15, Pref := 101325, Href := 0, S0 := 70, Tm := 273.15, Tb := 373.15, Hfus := 6010, Sfus := 0, Hvap := 40650 }
 
 theorem witnessData_ok : witnessData.Ok := by
   constructor <;> norm_num [witnessData]
 
-/-- `jump_Tm_S_counterexample`: the clause fails on a database chemical in reference phase liquid. -/
-theorem jump_Tm_S_counterexample : ¬ jump_Tm_S_statement := by
-  intro h
-  obtain ⟨sl, ss, -, h2, -⟩ := h 8.3144598 (constCap 30) (constCap 75) (constCap 34) _ _ _
-    (lawful_constCap 30) (lawful_constCap 75) (lawful_constCap 34) witnessData witnessData_ok .l none none 101325
-  rw [(solid_entropy_raises 8.3144598 (constCap 30) (constCap 75) (constCap 34) witnessData witnessData_ok _ _).1] at h2
-  cases h2
-
-/-- `jump_Tm_S_ctor` (what does hold): when `Hfus` and `Tm` are given to the constructor, the entropy functors of all
-phases evaluate and the jump at the melting point is `Hfus / Tm`, in each of the 3 reference phases. -/
-theorem jump_Tm_S_ctor (hs : Lawful Cs cs) (hl : Lawful Cl cl) (d : Data) (ok : d.Ok) (r : Phase) (P : ℝ) :
-    ∃ sl ss, (initEnergies (realEnv R) Cs Cl Cg (chemInCtor r d (some d.Hfus) (some d.Tm))).S (realEnv R) .l d.Tm P = .ok sl ∧
-             (initEnergies (realEnv R) Cs Cl Cg (chemInCtor r d (some d.Hfus) (some d.Tm))).S (realEnv R) .s d.Tm P = .ok ss ∧
-             sl - ss = d.Hfus / d.Tm := by
-  let d' : Data := { d with Sfus := d.Hfus / d.Tm }
-  have ok' : d'.Ok := ⟨ok.Tref_pos, ok.Tm_pos, ok.Tb_pos, ok.Hvap_ne⟩
-  have e : chemInCtor r d (some d.Hfus) (some d.Tm) = chemIn r d' := rfl
-  refine ⟨Sval R Cs Cl Cg d' r .l d'.Tm P, Sval R Cs Cl Cg d' r .s d'.Tm P, ?_, ?_, ?_⟩
-  · rw [e]; exact S_closed_form R Cs Cl Cg d' ok' r .l d.Tm P
-  · rw [e]; exact S_closed_form R Cs Cl Cg d' ok' r .s d.Tm P
-  · exact jump_Tm_S_partial R Cs Cl Cg cs cl hs hl d' ok' r P
+/-- `_set_phase_ref` without an explicit phase: the reference phase is the phase at `T_ref`
+(solid up to and including `Tm`, gas from `Tb` on, liquid in between). -/
+theorem defaultPhaseRef_spec (Tref Tm Tb : ℝ) (hm : Tm ≠ 0) (hb : Tb ≠ 0) :
+    defaultPhaseRef (realEnv R) Tref (some Tm) (some Tb) =
+      (if Tref ≤ Tm then Phase.s else if Tb ≤ Tref then Phase.g else Phase.l) := by
+  simp only [defaultPhaseRef, truthy, realEnv, hm, hb, decide_false, Bool.not_false, if_true]
+  by_cases h1 : Tref ≤ Tm <;> by_cases h2 : Tb ≤ Tref <;> simp [h1, h2]
 
 /-! ## Phase-locked chemicals
 
